@@ -48,6 +48,29 @@ def gen_programs(prop, seed, n, tier, outfile, profile="sweep_profile"):
             ds[mode] = H.decisions
         out.append({"case": case, "decisions": ds})
 
+    # seed corpus first: hand-written small programs every sweep of this property covers
+    import copy
+    from sim import sweep_corpus
+    if not hasattr(mod, "case_strategy"):
+        for name in sweep_corpus.FOR.get(prop, []):
+            case = copy.deepcopy(sweep_corpus.CORPUS[name])
+            if hasattr(mod, "adjust"):
+                case = mod.adjust(case)
+            case["_exclusions"] = findings_sim.active_exclusions()
+            case["_corpus"] = name
+            ds = {}
+            for mode, sched in MODES.items():
+                k = dict(case)
+                k["schedule"] = dict(sched)
+                H = run_case(k, hooks=getattr(mod, "hooks", None))
+                if H.verdict != "quiescent" or H.decisions > 900:
+                    ds = None
+                    break
+                ds[mode] = H.decisions
+            if ds:
+                out.append({"case": case, "decisions": ds})
+                acc.count("sweep_corpus_programs")
+    n += len(out)
     t()
     with open(outfile, "w") as fh:
         json.dump(out, fh)
